@@ -284,9 +284,20 @@ def replay_alias(rec):
     yield None, None, None, n
 
 
+class OrderUndefined(Exception):
+    """comparing two values the library returned raised: the order clause cannot even be evaluated on them"""
+
+
+def lib_less(x, y, what):
+    try:
+        return x < y
+    except TypeError as e:
+        raise OrderUndefined('%s: %s' % (what, e))
+
+
 FORM_NAMES = ('list', 'wire', 'uri', 'uri-shorthand', 'uri-typed-lowerhex', 'uri-nolead-trail', 'decoded-list', 'wire-bytearray')
 FORM_COMBOS = [(a, b) for a in range(3) for b in range(3)]
-N_ROT = 8
+N_ROT = 5
 
 
 def alt_uri(jname, lead):
@@ -295,7 +306,10 @@ def alt_uri(jname, lead):
     optional trailing slash.  (That these spellings denote the name is law I_NameForms / stage B: styles typed, allesc.)"""
     if not jname:
         return '/' if lead else ''
-    body = '/'.join('%d=%s' % (c['t'], ''.join('%%%02x' % b for b in c['v'])) for c in jname)
+    def esc(v):      # long values: only the first bytes are escaped needlessly, the rest as the grammar requires
+        return ''.join('%%%02x' % b if i < 16 or not (48 <= b <= 57 or 65 <= b <= 90 or 97 <= b <= 122) else chr(b)
+                       for i, b in enumerate(v))
+    body = '/'.join('%d=%s' % (c['t'], esc(c['v'])) for c in jname)
     return '/' + body if lead else body + '/'
 
 
@@ -349,7 +363,7 @@ def matrices(jnames):
     for i in range(k):
         for j in range(k):
             x, y = operands(i, j)
-            less[i][j] = x < y
+            less[i][j] = lib_less(x, y, 'names as returned by %s / %s' % (('Component.from_bytes', 'Name.from_str', 'Name.from_bytes')[(i + j) % 3], ('Component.from_bytes', 'Name.from_str', 'Name.from_bytes')[(i + 2 * j + 1) % 3]))
             eq[i][j] = (kinds[i][(i + j) % 3] == kinds[j][(i + 2 * j + 1) % 3])
     cat = [b''.join(kinds[i][i % 3]) for i in range(k)]
     prefix = [[[bool(Name.is_prefix(forms[i][a], forms[j][b])) for j in range(k)] for i in range(k)] for a, b in FORM_COMBOS]
@@ -389,7 +403,8 @@ def replay_sorted_comps(rec):
     for i in range(len(cs)):
         for j in range(len(cs)):
             a, b = (cs, ps)[(i + j) % 2][i], (cs, ps)[j % 2][j]
-            if ((a < b) != (i < j) or (a == b) != (i == j) or (a > b) != (i > j)) and 'cless' not in bad:
+            if ((lib_less(a, b, 'components as returned by Component.from_bytes / from_str') != (i < j) or (a == b) != (i == j)
+                 or lib_less(b, a, 'components as returned by Component.from_bytes / from_str') != (i > j)) and 'cless' not in bad):
                 bad['cless'] = 'bytes order of %r vs %r disagrees with the reference (ranks %d, %d)' % (a, b, i, j)
     return bad, 3 * len(cs) ** 2
 
@@ -488,7 +503,8 @@ def record_cpairs(jcomps):
     ps = [Component.from_str(Component.to_str(c)) for c in cs]
     pick = lambda i, j: ((cs, ps)[(i + j) % 2][i], (cs, ps)[j % 2][j])
     return {'k': 'cpairs', 'comps': jcomps,
-            'less': [[pick(i, j)[0] < pick(i, j)[1] for j in range(len(cs))] for i in range(len(cs))]}
+            'less': [[lib_less(pick(i, j)[0], pick(i, j)[1], 'components as returned by Component.from_bytes / from_str')
+                      for j in range(len(cs))] for i in range(len(cs))]}
 
 
 def lib_fn_of(e):
@@ -503,6 +519,9 @@ def guarded(ctx, stage, f, *args):
     """call a stage-B replay; an exception escaping the library is a violation, not a machinery failure"""
     try:
         return f(*args)
+    except OrderUndefined as e:
+        ctx.violation('C09/order(library objects)/general/raises-TypeError', '%s: %s' % (stage, e), {'kind': stage, 'what': str(e)})
+        return None
     except Exception as e:  # noqa
         if lib_fn_of(e) == 'library':
             raise
@@ -515,6 +534,9 @@ def safe(ctx, recorder, arg, slim):
     """run a recorder; an exception escaping the library on a library-produced value is itself a violation"""
     try:
         return recorder(arg)
+    except OrderUndefined as e:
+        ctx.violation('C09/order(library objects)/general/raises-TypeError', 'C: %s' % e, {'kind': 'judge', 'clause': 'raises', 'input': slim})
+        return None
     except Exception as e:  # noqa
         fn = 'library'
         for fr in traceback.extract_tb(e.__traceback__):
